@@ -25,6 +25,7 @@ ALL_FEATURES = frozenset({
     "widen_unsigned_from_signed",   # (uint64_t)int8-like conversions
     "logical_mixed",                # plain value and comparison mixed as && / || operands
     "calls_mixed_tmp_width",        # callees whose internal h_tmpN have different widths in one program
+    "narrow_cond_arms",             # ?: arms narrower than int
     "const_cond",                   # ?: with a compile-time constant condition (dead arm mentions live operands)
     "const_cmp",                    # comparison of two compile-time constants used as a condition
 })
@@ -210,7 +211,7 @@ def expr(draw, env, depth, allow_hybrid=False):
         if is_const(a):
             a = draw(leaf(env, want_nonconst=True))
         ta = _ty(a, env)
-        if ta[1] < 32 and op == "<<" and "narrow_shift_left" not in f:
+        if ta[1] < 32 and "narrow_shift_left" not in f:
             a = ("cast", promote(ta), a)
         w = promote(ta)[1]
         if draw(st.booleans()):
@@ -224,7 +225,23 @@ def expr(draw, env, depth, allow_hybrid=False):
         return draw(logic_expr(env, depth))
     if k == "cond":
         c = draw(condition(env, depth - 1, allow_hybrid=False))
-        a, b = sub(), sub()
+        arm_h = allow_hybrid and "hyb_in_cond_arm" in f
+        a = draw(expr(env, depth - 1, arm_h))
+        b = draw(expr(env, depth - 1, arm_h))
+        if allow_hybrid and "hyb_stmtexpr" in f and draw(st.integers(0, 2)) == 0:
+            # a statement-expression arm that assigns an existing, already initialised variable (the form the
+            # shipped saturation macros use): its statements must run only when the arm is selected
+            names = [n for n in sorted(env.vars) if n not in env.busy and not n.startswith("__")
+                     and n not in getattr(env, "readonly", ())]
+            if names:
+                n_ = draw(st.sampled_from(names))
+                env.busy.add(n_)
+                arm = ("stmtexpr", [("expr", ("assign", "=", ("var", n_), draw(expr(env, depth - 1, False))))],
+                       draw(expr(env, max(depth - 2, 0), False)))
+                if draw(st.booleans()):
+                    a = arm
+                else:
+                    b = arm
         return ("cond", c, a, b)
     if k == "constcond":
         c = draw(st.sampled_from([num(1), num(0), ("bin", "==", num(1), num(1)), ("bin", "<", num(3), num(2))]))
@@ -274,10 +291,10 @@ def expr(draw, env, depth, allow_hybrid=False):
 
 
 @st.composite
-def cmp_expr(draw, env, depth):
+def cmp_expr(draw, env, depth, allow_hybrid=False):
     op = draw(st.sampled_from(["<", ">", "<=", ">=", "==", "!="]))
-    a = draw(expr(env, depth - 1))
-    b = draw(expr(env, depth - 1))
+    a = draw(expr(env, depth - 1, allow_hybrid))
+    b = draw(expr(env, depth - 1, allow_hybrid))
     if is_const(a) and is_const(b):
         a = draw(leaf(env, want_nonconst=True))
     if "cmp_narrow" not in env.features:
@@ -305,7 +322,7 @@ def condition(draw, env, depth, allow_hybrid=False):
         ks.append("logic")
     k = draw(st.sampled_from(ks))
     if k == "cmp":
-        return draw(cmp_expr(env, max(depth, 1)))
+        return draw(cmp_expr(env, max(depth, 1), allow_hybrid))
     if k == "logic":
         return draw(logic_expr(env, depth))
     e = draw(expr(env, max(depth - 1, 0), allow_hybrid))
@@ -382,6 +399,8 @@ def stmt(draw, env, depth, nest):
         kinds += ["jump"]
     if "hyb_unused_stmt" in f and env.vars:
         kinds += ["hyb_stmt"]
+    if "hyb_stmtexpr" in f and "cond" in f and any(not n.startswith("__") for n in env.vars):
+        kinds += ["condarm", "condarm"]
     kinds += ["empty"]
     k = draw(st.sampled_from(kinds))
     hyb = bool(f & {"hyb_inc", "hyb_call", "hyb_stmtexpr"})
@@ -436,6 +455,19 @@ def stmt(draw, env, depth, nest):
     if k == "jump":
         env.busy = set()
         return ("jump", draw(expr(env, depth - 1, False)))
+    if k == "condarm":
+        # dst = c ? A : ({ v = e; B; })  with arms of different C types (the shape of the shipped saturation macros)
+        env.busy = set()
+        names = [n for n in sorted(env.vars) if not n.startswith("__") and n not in getattr(env, "readonly", ())]
+        v = draw(st.sampled_from(names))
+        env.busy.add(v)
+        c = draw(cmp_expr(env, 1))
+        inner = ("stmtexpr", [("expr", ("assign", "=", ("var", v), draw(expr(env, 1, False))))],
+                 ("cast", draw(st.sampled_from(WIDE_TYPES)), draw(leaf(env))))
+        other = ("cast", draw(st.sampled_from(WIDE_TYPES)), draw(expr(env, 1, False)))
+        a, b = (inner, other) if draw(st.booleans()) else (other, inner)
+        dst = ("opnd", draw(st.sampled_from(env.dsts + env.rws)))
+        return ("expr", ("assign", "=", dst, ("cond", c, a, b)))
     if k == "hyb_stmt":
         env.busy = set()
         names = [n for n in sorted(env.vars) if env.vars[n][1] >= 32 and not n.startswith("__")]
@@ -476,6 +508,13 @@ def program(draw, features, depth=3, nest=2, lo=1, hi=6):
     env = draw(env_strategy(features))
     body = draw(stmts(env, depth, nest, lo, hi))
     body = [s for s in body]
+    # observers: the final value of every top-level local becomes visible in memory
+    k_ = 0
+    for n_, t_ in sorted(env.vars.items()):
+        if n_.startswith("__") or n_ in ("i", "j", "k") or t_[1] not in (8, 16, 32, 64):
+            continue
+        body.append(("store", t_[0], t_[1], num(0x40000000 + 8 * k_), ("var", n_)))
+        k_ += 1
     # drop helper marks
     return body, env
 
@@ -483,6 +522,13 @@ def program(draw, features, depth=3, nest=2, lo=1, hi=6):
 # --------------------------------------------------------------------------------------------------------
 # Normalisation passes: rewrite a generated program so that it stays outside the classes of listed findings
 # (exclusion by construction). Each rewrite is counted by the caller through `stats`.
+
+def _cast_arm(t, arm):
+    """cast a ?: arm; a statement-expression arm keeps its shape (the cast goes onto its value)"""
+    if arm[0] == "stmtexpr":
+        return ("stmtexpr", arm[1], ("cast", t, arm[2]))
+    return ("cast", t, arm)
+
 
 def _su_widen(src, dst):
     """conversion of a signed value to a wider unsigned type (after integer promotion of the source)"""
@@ -551,8 +597,8 @@ def normalize(stmts, features, subs=None, stats=None, vartypes=None):
                 return ("bin", op, a, b)
             if op in ("<<", ">>"):
                 ta = ty(a)
-                if op == "<<" and ta[1] < 32 and "narrow_shift_left" not in features:
-                    note("excluded:narrow left operand of << (promotion cast inserted)")
+                if ta[1] < 32 and "narrow_shift_left" not in features:
+                    note("excluded:narrow left operand of a shift (promotion cast inserted)")
                     a = ("cast", promote(ta), a)
                 return ("bin", op, a, b)
             ta, tb = ty(a), ty(b)
@@ -577,13 +623,20 @@ def normalize(stmts, features, subs=None, stats=None, vartypes=None):
             return ("bin", op, a2, b2)
         if k == "cond":
             c, a, b = ex(e[1]), ex(e[2]), ex(e[3])
+            if "narrow_cond_arms" not in features:
+                if ty(a)[1] < 32:
+                    note("excluded:narrow ?: arm (promotion cast inserted)")
+                    a = _cast_arm(promote(ty(a)), a)
+                if ty(b)[1] < 32:
+                    note("excluded:narrow ?: arm (promotion cast inserted)")
+                    b = _cast_arm(promote(ty(b)), b)
             t = common(ty(a), ty(b))
             if "widen_unsigned_from_signed" not in features:
                 if _su_widen(ty(a), t):
-                    a = ("cast", (True, t[1]), a)
+                    a = _cast_arm((True, t[1]), a)
                     note("excluded:signed->wider-unsigned conversion (cast via signed inserted)")
                 if _su_widen(ty(b), t):
-                    b = ("cast", (True, t[1]), b)
+                    b = _cast_arm((True, t[1]), b)
                     note("excluded:signed->wider-unsigned conversion (cast via signed inserted)")
             return ("cond", c, a, b)
         if k == "assign":
@@ -593,14 +646,14 @@ def normalize(stmts, features, subs=None, stats=None, vartypes=None):
                 rhs = conv(rhs, lt)
             elif e[1] not in ("<<=", ">>="):
                 t = common(lt, ty(rhs))
-                if "widen_unsigned_from_signed" not in features and _su_widen(promote(ty(rhs)), t):
+                if "widen_unsigned_from_signed" not in features and _su_widen(ty(rhs), t):
                     note("excluded:signed->wider-unsigned conversion (cast via signed inserted)")
                     rhs = ("cast", (True, t[1]), rhs)
             return ("assign", e[1], lhs, rhs)
         if k == "post":
             return e
         if k == "load":
-            return ("load", e[1], e[2], ex(e[3]))
+            return ("load", e[1], e[2], conv(ex(e[3]), (False, 32)))
         if k == "call":
             args = [ex(a) for a in e[2]]
             sd = subs.get(e[1])
@@ -618,6 +671,9 @@ def normalize(stmts, features, subs=None, stats=None, vartypes=None):
         return e
 
     def st_(s):
+        return st2_(desequence(s, note))
+
+    def st2_(s):
         k = s[0]
         if k == "decl":
             init = s[3]
@@ -635,7 +691,7 @@ def normalize(stmts, features, subs=None, stats=None, vartypes=None):
             init = None if s[1] is None else st_(s[1])
             return ("for", init, None if s[2] is None else cond_(s[2]), None if s[3] is None else ex(s[3]), st_(s[4]))
         if k == "store":
-            return ("store", s[1], s[2], ex(s[3]), conv(ex(s[4]), (s[1], s[2])))
+            return ("store", s[1], s[2], conv(ex(s[3]), (False, 32)), conv(ex(s[4]), (s[1], s[2])))
         if k == "jump":
             return ("jump", conv(ex(s[1]), (False, 32)))
         if k == "return":
@@ -745,3 +801,105 @@ def sub_stmt(draw, env, depth):
     bound = ("bin", "&", draw(leaf(env, want_nonconst=True)), num(3))
     return ("for", ("decl", (False, 32), cnt, num(0), False), ("bin", "<", ("var", cnt), ("cast", (False, 32), bound)),
             ("post", "++", ("var", cnt)), bodyst)
+
+
+def _var_uses(e, acc):
+    """count variable mentions in an expression (not descending into nested statements of a statement-expression
+    beyond their expressions, which belong to the same full expression anyway)"""
+    from .cref import walk
+    for n in walk(e):
+        if n and n[0] == "var":
+            acc[n[1]] = acc.get(n[1], 0) + 1
+        elif n and n[0] == "decl":
+            acc[n[2]] = acc.get(n[2], 0) + 1
+
+
+def _strip_posts(e, bad):
+    if isinstance(e, tuple):
+        if e and e[0] == "post" and e[2][0] == "var" and e[2][1] in bad:
+            return e[2]
+        return tuple(_strip_posts(x, bad) for x in e)
+    if isinstance(e, list):
+        return [_strip_posts(x, bad) for x in e]
+    return e
+
+
+def desequence(s, note=lambda k: None):
+    """C leaves `x++` undefined when x is read or modified elsewhere in the same full expression; the generator
+    keeps out of that by turning such a postfix operation into a plain read"""
+    k = s[0]
+    if k == "decl" and s[3] is not None:
+        parts = [s[3]]
+    elif k == "expr":
+        parts = [s[1]]
+    elif k == "store":
+        parts = [s[3], s[4]]
+    elif k == "jump":
+        parts = [s[1]]
+    elif k == "if":
+        parts = [s[1]]
+    elif k == "for":
+        parts = [x for x in (s[2],) if x is not None]
+    else:
+        return s
+    uses = {}
+    for p_ in parts:
+        _var_uses(p_, uses)
+    if k == "decl":
+        uses[s[2]] = uses.get(s[2], 0) + 1
+    from .cref import walk
+    posted = {}
+    for p_ in parts:
+        for n in walk(p_):
+            if n and n[0] == "post" and n[2][0] == "var":
+                posted[n[2][1]] = posted.get(n[2][1], 0) + 1
+    bad = {v for v, c in posted.items() if uses.get(v, 0) > 1}
+    # statement-expressions that assign a variable mentioned elsewhere in the same full expression
+    strip = []
+    for p_ in parts:
+        for n in walk(p_):
+            if n and n[0] == "stmtexpr":
+                inner = {}
+                _var_uses(n, inner)
+                assigned = {m[2][1] for m in walk(n[1]) if m and m[0] == "assign" and m[2][0] == "var"}
+                if any(uses.get(v, 0) > inner.get(v, 0) for v in assigned):
+                    strip.append(n)
+    if strip:
+        note("excluded:statement-expression assigns a variable used elsewhere in the full expression (statements dropped)")
+        def rm(e):
+            if isinstance(e, tuple):
+                if any(e is x or e == x for x in strip):
+                    return rm(e[2])
+                return tuple(rm(x) for x in e)
+            if isinstance(e, list):
+                return [rm(x) for x in e]
+            return e
+        parts2 = [rm(p_) for p_ in parts]
+        if k == "decl":
+            s = ("decl", s[1], s[2], parts2[0], s[4])
+        elif k == "expr":
+            s = ("expr", parts2[0])
+        elif k == "store":
+            s = ("store", s[1], s[2], parts2[0], parts2[1])
+        elif k == "jump":
+            s = ("jump", parts2[0])
+        elif k == "if":
+            s = ("if", parts2[0], s[2], s[3])
+        elif k == "for" and parts2:
+            s = ("for", s[1], parts2[0], s[3], s[4])
+    if not bad:
+        return s
+    note("excluded:unsequenced modification (postfix op replaced by a read)")
+    if k == "decl":
+        return ("decl", s[1], s[2], _strip_posts(s[3], bad), s[4])
+    if k == "expr":
+        return ("expr", _strip_posts(s[1], bad))
+    if k == "store":
+        return ("store", s[1], s[2], _strip_posts(s[3], bad), _strip_posts(s[4], bad))
+    if k == "jump":
+        return ("jump", _strip_posts(s[1], bad))
+    if k == "if":
+        return ("if", _strip_posts(s[1], bad), s[2], s[3])
+    if k == "for":
+        return ("for", s[1], _strip_posts(s[2], bad), s[3], s[4])
+    return s
